@@ -522,7 +522,8 @@ func lexInsideAction(l *lexer) stateFn {
 		l.backup()
 		return lexNumber
 	case r == '_':
-		if !isAlphaNumeric(l.peek()) {
+		// look ahead without l.peek(), which would clobber l.width and break the l.backup() below
+		if nr, _ := utf8.DecodeRuneInString(l.input[l.pos:]); !isAlphaNumeric(nr) {
 			l.emit(itemUnderscore)
 			return lexInsideAction
 		}
